@@ -84,6 +84,10 @@ def runLines (c : Component) (lines : List String) : List String := Id.run do
       let (st', o) := c.step st2 rest
       st2 := st'
       for x in o do out := out.push ("twin " ++ x)
+    | "app" :: _ => pure ()   -- the habits of the APPLICATION of the case (harness/corr/streaminfo_test.go): which
+                              -- StreamInfo value it hands to Unbind* (a stream is named by its SSRC), in which order it
+                              -- lists feedback entries and functional options, what it does with its own StreamInfo
+                              -- after Bind* returned.  The values are the application's: no model depends on them
     | "amb" :: _ => pure ()   -- the surroundings of the interceptor under test (transparent neighbours, attribute
                               -- reuse, chain wrapping): no model depends on them — that is what C01 states
 
